@@ -66,7 +66,7 @@ def extract_cholesky(src):
         "raises": [], "warnCategory": "?", "warnInLoop": False, "nanScreenBeforeLoop": False,
         "jitterDefaultExpr": "?", "maxTriesDefaultExpr": "?", "firstCallArg": "?", "retryCallArg": "?",
         "exitTests": [], "coreParams": [], "wrapperParams": [], "wrapperUpperExpr": "?", "cholCalls": 0,
-        "loopBodyKinds": [],
+        "loopBodyKinds": [], "jitterNewBoundBeforeLoop": False, "finalRaiseUsesJitterNew": False,
     }
     tree = ast.parse(src)
     core = _func(tree, "_psd_safe_cholesky")
@@ -81,6 +81,9 @@ def extract_cholesky(src):
         if isinstance(n, ast.Raise) and isinstance(n.exc, ast.Call):
             facts["raises"].append((n.lineno, ast.unparse(n.exc.func)))
     facts["raises"] = [r for _, r in sorted(facts["raises"])]
+    for st in core.body:
+        if isinstance(st, ast.Raise):
+            facts["finalRaiseUsesJitterNew"] = any(isinstance(x, ast.Name) and x.id == "jitter_new" for x in ast.walk(st))
     # cholesky_ex calls
     calls = [n for n in ast.walk(core) if isinstance(n, ast.Call) and ast.unparse(n.func).endswith("cholesky_ex")]
     facts["cholCalls"] = len(calls)
@@ -88,10 +91,11 @@ def extract_cholesky(src):
     for st in core.body:
         if st is loop:
             break
-        if isinstance(st, ast.Assign) and len(st.targets) == 1:
-            t = st.targets[0]
+        for t in (st.targets if isinstance(st, ast.Assign) else []):
             if isinstance(t, ast.Name) and t.id == "jitter_prev":
                 facts["jitterPrevInit"] = _num_text(st.value)
+            if isinstance(t, ast.Name) and t.id == "jitter_new":
+                facts["jitterNewBoundBeforeLoop"] = True
             if isinstance(t, ast.Name) and isinstance(st.value, ast.Call) and isinstance(st.value.func, ast.Attribute) \
                     and st.value.func.attr == "clone" and ast.unparse(st.value.func.value) == "A" and not st.value.args:
                 facts["_cloneVar"] = t.id
@@ -179,7 +183,7 @@ def extract_cholesky(src):
             if isinstance(st, ast.If) and any(isinstance(b, ast.Return) for b in st.body):
                 facts["exitTests"].append(ast.unparse(st.test))
         facts["cumulative"] = bool(prev_updated and facts.get("_incr") in ("jitter_new - jitter_prev", "(jitter_new - jitter_prev)")
-                                   and facts.get("_writeArg") == "diag_add")
+                                   and "diag_add" in str(facts.get("_writeArg")))
         facts["clones"] = bool(facts.get("_cloneVar") is not None and facts["writeTarget"] == facts.get("_cloneVar")
                                and facts["retryCallArg"] == facts.get("_cloneVar"))
     # wrapper: what happens under `if upper:`
@@ -266,6 +270,8 @@ def render(ch, se):
         f"def maskThreshold : Int := {ch['maskThreshold'] if isinstance(ch['maskThreshold'], int) else -1}",
         "/-- the tensor written in place and re-factorised is a fresh `A.clone()` -/",
         f"def clones : Bool := {'true' if ch['clones'] else 'false'}",
+        "/-- `jitter_new` is bound before the loop, or the `raise` after the loop does not read it -/",
+        f"def jitterNewBound : Bool := {'true' if (ch['jitterNewBoundBeforeLoop'] or not ch['finalRaiseUsesJitterNew']) else 'false'}",
         f"def writeTarget : String := {lean_str(ch['writeTarget'])}",
         f"def writeOp : String := {lean_str(ch['writeOp'])}",
         f"def firstCallArg : String := {lean_str(ch['firstCallArg'])}",
